@@ -514,7 +514,7 @@ pub fn big_cfg(rng: &mut Rng, max_states_hint: usize) -> (Cfg, Vec<bool>) {
 }
 
 pub fn big_cfg_variant(rng: &mut Rng, max_states_hint: usize, variant: usize) -> (Cfg, Vec<bool>) {
-    const SIZES: &[usize] = &[9, 10, 11, 10, 15, 16, 17, 16, 31, 32, 33, 32, 63, 64, 65, 64, 99, 100, 101, 120];
+    const SIZES: &[usize] = &[9, 10, 11, 10, 15, 16, 17, 16, 31, 32, 33, 32, 63, 64, 65, 64, 66, 99, 100, 101, 120, 127, 128, 129, 130];
     let mut n = *rng.pick(SIZES);
     match variant {
         7 => {
